@@ -50,6 +50,10 @@ def asbuilt(pid):
     bt, b = section(t, r'^blind spots')
     if b:
         out.append('*Measured / known blind spots:*\n\n' + b)
+    for pat, label in ((r'independent exploration', 'Independent exploration'), (r'seeded changes', 'Seeded changes')):
+        et, e = section(t, pat)
+        if et:
+            out.append(f'*{label}:* see the section "{et}" of `notes/{pid}.md` (what was found or missed, what was added to the check, dispositions, revert mutants).')
     return '\n\n'.join(out)
 
 
